@@ -9,7 +9,7 @@ TARGETS = [M]
 THEOREMS = [(M, "NQ.C19." + n) for n in [
     "step_valid", "choice_allowed", "progress", "expand_isSome", "expand_run", "sum_inv", "run_steps",
     "simplify_sound", "fields_fit", "finish_keeps_all", "result_within", "result_within_radians",
-    "spec_within", "accepts_sound", "rotation_pair", "rotation_sum"]]
+    "spec_within", "accepts_sound", "emitted_operands", "emitted_within", "rotation_pair", "rotation_sum"]]
 TRANSLATORS = []
 LEVEL_TEXT = (
     "Lean theorems over exact dyadic values (every double is one) read in any ordered field: for EVERY run of the "
@@ -122,28 +122,68 @@ def run(ctx):
             res.failures.append({"what": "rotation steps returned for a non-finite angle", "kf": None,
                                  "input": {"angle": repr(a), "returned": [list(p) for p in out]}})
 
-    # ---- builder path: one rotation instruction per step, operands (n, d)
-    n_b = 300 if ctx.thorough else 40
-    bcases = [("X", 0.3), ("Z", -1e-20), ("Y", 2e-4), ("X", 2 * math.pi), ("Z", 0.0)]
-    while len(bcases) < n_b:
-        bcases.append((rng.choice("XYZ"), H.random_angle(rng)))
-    for (axis, a), (kind, rots) in zip(bcases, H.builder_rotations(bcases)):
+    # ---- builder path, judged over the SAME angle stream as the toolbox function: what `q.rot_X/Y/Z(angle=…)`
+    # really EMITS (pending commands of the real builder) vs the angle (oracle) and vs the model (`emitSpec`)
+    tol0 = H.default_tol()
+    fb = H.FastBuilder()
+    bangles = [2e-4, -1e-20, 0.3, 1.0002e-4, math.pi / 4 + 1.0003e-4, -math.pi / 2 + 1.0002e-4,
+               5 * math.pi + 1.0003e-4]                                     # corpus (incl. seeded-change witnesses)
+    bangles += H.near_tol_angles(tol0) + structured
+    bangles += [a for a, _ in cases[len(cases) - n_random:][: (20000 if ctx.thorough else 3000)]]
+    for _ in range(20000 if ctx.thorough else 3000):
+        bangles.append(H.random_near_tol(rng, tol0))
+    emitted, breqs, bacc = [], [], []
+    for i, a in enumerate(bangles):
+        axis = H.AXES[i % 3]
+        kind, cmds = fb.emit(axis, a)
+        emitted.append((axis, kind, cmds))
+        e, r, t = H.exact_inputs(a, tol0)
+        breqs.append({"op": "angle.emit", "E": e, "r": r, "t": t, "axis": i % 3, "vq": fb.vq})
+        rots = [[c[3], c[4]] for c in cmds if c[0] == "rot"] if kind == "ok" else []
+        okshape = all(isinstance(n, int) and isinstance(d, int) and n >= 0 and d >= 0 for n, d in rots)
+        bacc.append({"op": "angle.accepts", "E": e, "r": r, "t": t, "l": rots if okshape else [[0, 0]]})
+    bmodel = ctx.driver.batch(breqs)
+    baccepted = ctx.driver.batch(bacc)
+    for a, (axis, kind, cmds), m, acc in zip(bangles, emitted, bmodel, baccepted):
         res.evaluations += 1
-        inp = {"axis": axis, "angle": a, "angle_hex": _hex(a)}
-        k2, spec = H.real_spec(a, 1e-4)
+        inp = {"call": "q.rot_%s(angle=a)" % axis, "angle": a, "angle_hex": _hex(a), "tol": tol0}
         if kind == "raise":
-            res.count("builder-raises:" + rots)
-            res.failures.append({"what": "q.rot_%s(angle=...) raises %s" % (axis, rots), "kf": None, "input": inp})
+            res.count("builder-raises:" + cmds)
+            res.failures.append({"what": "q.rot_%s(angle=...) raises %s" % (axis, cmds), "kf": None, "input": inp})
+            res.disagreements.append({"stream": "angle.emit", "input": inp, "model": m.get("cmds"),
+                                      "code": "raise " + cmds})
             continue
+        rots = [(c[3], c[4]) for c in cmds if c[0] == "rot"]
         res.count("builder-rotations:%d" % len(rots))
         if rots:
             res.nontrivial.add(("builder", axis, _hex(a)))
-        if k2 != "ok" or [tuple(p) for p in rots] != spec:
-            res.failures.append({"what": "builder does not emit one rotation per step of the angle spec", "kf": None,
-                                 "input": {**inp, "rotations": [list(p) for p in rots], "spec": repr(spec)}})
-        else:
-            bad = H.oracle(a, 1e-4, [tuple(p) for p in rots])
-            if bad:
-                res.failures.append({"what": "builder rotations: " + bad, "kf": None,
-                                     "input": {**inp, "rotations": [list(p) for p in rots]}})
+        if m.get("cmds") != cmds:
+            # same shape (set Q0 vq; rot) around an accepted neighbouring-exponent run is still the model
+            shape_ok = len(cmds) == 2 * len(rots) and all(
+                cmds[2 * i] == ["set", 0, fb.vq] and cmds[2 * i + 1][:3] == ["rot", H.AXES.index(axis), 0]
+                for i in range(len(rots)))
+            if shape_ok and acc.get("ok"):
+                res.count("builder-neighbouring-exponent-run")
+            else:
+                res.disagreements.append({"stream": "angle.emit (emitted commands vs model emitSpec)", "input": inp,
+                                          "model": m.get("cmds"), "code": cmds})
+        bad = H.oracle(a, tol0, rots)
+        if bad:
+            res.failures.append({"what": "emitted by the builder: " + bad, "kf": None,
+                                 "input": {**inp, "emitted": [list(p) for p in rots]}})
+    # ---- full path (flush, serialise, deserialise) for a few: the instructions carry the same operands
+    n_b = 120 if ctx.thorough else 30
+    bcases = [("X", 0.3), ("Z", -1e-20), ("Y", 2e-4), ("X", 2 * math.pi), ("Z", 0.0), ("Y", 1.0002e-4)]
+    while len(bcases) < n_b:
+        bcases.append((rng.choice("XYZ"), rng.choice(bangles)))
+    for (axis, a), (kind, rots) in zip(bcases, H.builder_rotations(bcases)):
+        res.evaluations += 1
+        inp = {"axis": axis, "angle": a, "angle_hex": _hex(a), "path": "flush+serialise"}
+        if kind == "raise":
+            res.failures.append({"what": "q.rot_%s(angle=...) raises %s" % (axis, rots), "kf": None, "input": inp})
+            continue
+        bad = H.oracle(a, tol0, [tuple(p) for p in rots])
+        if bad:
+            res.failures.append({"what": "serialised rotations: " + bad, "kf": None,
+                                 "input": {**inp, "rotations": [list(p) for p in rots]}})
     return res
